@@ -2,6 +2,7 @@ import UtilModel.Core.Driver
 import UtilModel.Core.DriverH
 import UtilModel.Routine.Model
 import UtilModel.Routine.Monitors
+import UtilModel.Routine.Backoff
 /-! Development driver for this component only:
 `lake env lean --run UtilModel/Routine/TestDriver.lean routine < hist` -/
 open UtilModel
@@ -10,5 +11,6 @@ def main (args : List String) : IO UInt32 :=
   driverMain [
     mkEntryH "routine" Routine.model Routine.Obs.parse
       [MonEntry.ofMonitor "C04" Routine.monC04,
-       MonEntry.ofMonitor "C05" Routine.monC05, MonEntry.ofMonitor "C14h" Routine.monC14h, MonEntry.ofMonitor "C14" Routine.monC14] (cap := 20000)
+       MonEntry.ofMonitor "C05" Routine.monC05, MonEntry.ofMonitor "C14h" Routine.monC14h, MonEntry.ofMonitor "C14" Routine.monC14] (cap := 20000),
+    mkEntry "backoff" Routine.Backoff.model Routine.Backoff.Obs.parse [MonEntry.ofMonitor "C14bo" Routine.Backoff.monC14bo]
   ] args
